@@ -1012,8 +1012,9 @@ func run(ctx context.Context, c tcase) string {
 			}
 		}
 		tlog := nm.logTok(twin.st.events, false)
-		twinLine = fmt.Sprintf("\nres=%s stream=%s failed=- lost=- fin=%s log=%s nodes=%s cl=%s rb=%s rp=na ri=%s referr=%s req=na twin=1",
-			tres, streamTok, tfin, tlog, nm.nodesTok(twin.st), tri3(tsucc, tcl), tri3(tsucc && refErr == nil, trb),
+		// failed / lost: as recorded on the direct route for the same input (the entry points hide the DAG service)
+		twinLine = fmt.Sprintf("\nres=%s stream=%s failed=%s lost=%s fin=%s log=%s nodes=%s cl=%s rb=%s rp=na ri=%s referr=%s req=na twin=1",
+			tres, streamTok, common.Ints(rec.failed), lostTok(ctx, rec, refDS), tfin, tlog, nm.nodesTok(twin.st), tri3(tsucc, tcl), tri3(tsucc && refErr == nil, trb),
 			tri3(tsucc && refErr == nil, tri), b01(importerFails))
 	}
 
